@@ -102,8 +102,9 @@ def binEqual (X : Ctx) : Bin → Bin → Bool
     | _, _ => false
 
 mutual
-/-- `Executor::values_equal`, arm for arm. There is **no** `Resource` arm in the code: two resource
-values fall to `_ => false`, even a resource against itself. -/
+/-- `Executor::values_equal`, arm for arm, same order. (The `Resource` arm — same resource id, the
+resource type id is not compared — exists since `fix: a resource handle never compared equal to
+itself`; before, two resources fell to `_ => false`: `valuesEqualLegacyRes`.) -/
 def valuesEqual (X : Ctx) : Val → Val → Bool
   | .int a, .int b => a == b
   | .bin a, .bin b => binEqual X a b
@@ -113,6 +114,7 @@ def valuesEqual (X : Ctx) : Val → Val → Bool
   | .builtin a, .builtin b => a == b
   | .proc a fa, .proc b fb => a == b && fa == fb
   | .ref a, .ref b => a == b
+  | .res a _, .res b _ => a == b
   | _, _ => false
 /-- `xs.iter().zip(ys.iter()).all(|(a, b)| self.values_equal(a, b))` (stops at the shorter). -/
 def zipAllEqual (X : Ctx) : ValList → ValList → Bool
@@ -210,9 +212,11 @@ end
 
 mutual
 /-- A runtime value the executor can actually hold under `X`: tuple ids in range with the
-declared arity, binary handles pointing at bytes, **no resource**, and every process handle
-carrying the function index `pf pid` the process was spawned with (see finding C13-B: `handle_self`
-after a named tail call produces a handle that violates this). -/
+declared arity, binary handles pointing at bytes, and every process handle carrying the function
+index `pf pid` the process was started with (`Executor.process_function_indices`). Every producer
+of a `Value::Process` uses that index: `notify_spawn`, `handle_self` (since `fix: the self handle
+of a process changed after a named tail call`; before, it read `frames.first()`, which a named
+tail call replaces — finding C13-B), and `Instruction::Process` re-materialising an existing handle. -/
 def WF (X : Ctx) (pf : Nat → Nat) : Val → Prop
   | .int _ => True
   | .bin b => (X.bytesOf b).isSome
@@ -221,7 +225,7 @@ def WF (X : Ctx) (pf : Nat → Nat) : Val → Prop
   | .fn _ caps => WFList X pf caps
   | .builtin _ => True
   | .proc pid f => f = pf pid
-  | .res _ _ => False
+  | .res _ _ => True
 def WFList (X : Ctx) (pf : Nat → Nat) : ValList → Prop
   | .nil => True
   | .cons v vs => WF X pf v ∧ WFList X pf vs
@@ -240,11 +244,27 @@ def wfB (X : Ctx) : Val → Bool
   | .fn _ caps => wfListB X caps
   | .builtin _ => true
   | .proc _ _ => true
-  | .res _ _ => false
+  | .res _ _ => true
 def wfListB (X : Ctx) : ValList → Bool
   | .nil => true
   | .cons v vs => wfB X v && wfListB X vs
 end
+
+/-! ### Producers of process handles -/
+
+/-- What the spawner receives (`worker.rs`: `notify_spawn(pid, Value::Process(spawned_pid,
+function_index))`), with `function_index` the function the process is started with — the value
+`spawn_process` records in `process_function_indices`. -/
+def spawnHandle (pid fidx : Nat) : Val := .proc pid fidx
+
+/-- `handle_self`: the index the process was started with (`process_function_indices.get(pid)`),
+falling back to the first frame's function only if there is none. -/
+def selfHandle (started : Nat → Option Nat) (firstFrameFn pid : Nat) : Val :=
+  .proc pid ((started pid).getD firstFrameFn)
+
+/-- `handle_self` before `fix: the self handle of a process changed after a named tail call`:
+always the first frame's function — which `TailCall(false)` replaces. -/
+def selfHandleLegacy (firstFrameFn pid : Nat) : Val := .proc pid firstFrameFn
 
 /-! ### Ref minting (`Executor::create_ref`) -/
 
